@@ -94,6 +94,16 @@ inductive DOp
   /-- the replacement step of `DatabaseService.restore_backup`: file `f` of folder `F` is replaced by a copy of the live
   file `f` of folder `srcF`; the visible status of the replaced file is carried over -/
   | dbReplace (F f srcF : String)
+  /-- external writer of a FOLDER's actual health: `DatabaseService._process_sql` marks the database folder CORRUPT on an
+  ENCRYPT query (Python-API stand-in, like `Op.fileSet` for files) -/
+  | folderSet (F : String) (h : FsH)
+  /-- the whole of `DatabaseService.restore_backup()` as the file system sees it. What the network did is an INPUT:
+  `pre` = a leftover `downloads/database.db` was removed before the transfer (tree-dependent), `dl` = health of the copy that
+  arrived in `downloads/database.db` (`none` = nothing arrived / the restore gave up before touching the database file). -/
+  | dbRestore (pre : Bool) (dl : Option FsH)
+  /-- a timestep in which — if the fix of the item named `database-service` completes in it — `restore_backup()` runs right
+  after that item's tick and before the file system's tick (`DatabaseService._update_fix_status`); `pre`, `dl` as above -/
+  | tickDb (pre : Bool) (dl : Option FsH)
 deriving DecidableEq, Repr
 
 /-- `software_manager.software.get(name)` (one dict for services and applications) -/
@@ -153,17 +163,78 @@ def firstAny (f : String) (fs : List File) : Option File :=
   | some x => some x
   | none => findAny f fs
 
-/-- The replacement step of `restore_backup` (after the download succeeded). `none` = "Database file not initialised" /
-source missing: nothing changes. -/
+/-- The replacement step of `restore_backup` (after the download arrived). `get_file("database", "database.db",
+include_deleted=True)` looks in the first LIVE folder of that name, else in the first DELETED one; in it for the first live
+file of that name, else the first deleted one. Nothing found = "Database file not initialised": nothing changes. Otherwise the
+live file (if any) is deleted and a copy of the download is added by `copy_file` — into the live folder, or into a NEW folder of
+that name when only a deleted one exists — showing the visible status of the file it stands in for. -/
 def DNode.dbReplace (d : DNode) (F f srcF : String) : DNode :=
-  match d.n.liveFile? srcF f, d.n.liveFolder? F with
-  | some src, some G =>
-    match firstAny f G.files with
-    | none => d
-    | some old =>
-      let n1 := d.n.mapLiveFolder F (fun G => G.mapLiveFile f File.delete)
-      { d with n := n1.addFile F { name := f, actual := src.actual, visible := old.visible, deleted := false } }
-  | _, _ => d
+  match d.n.liveFile? srcF f with
+  | none => d
+  | some src =>
+    match d.n.liveFolder? F with
+    | some G =>
+      match firstAny f G.files with
+      | none => d
+      | some old =>
+        let n1 := d.n.mapLiveFolder F (fun G => G.mapLiveFile f File.delete)
+        { d with n := n1.addFile F { name := f, actual := src.actual, visible := old.visible, deleted := false } }
+    | none =>
+      match d.n.findFolder F with
+      | none => d
+      | some G =>
+        match firstAny f G.files with
+        | none => d
+        | some old =>
+          let d1 := d.createFolder F
+          { d1 with n := d1.n.addFile F { name := f, actual := src.actual, visible := old.visible, deleted := false } }
+
+/-- names used by `DatabaseService` -/
+def dbSvcName : String := "database-service"
+def dbFolder : String := "database"
+def dbFile : String := "database.db"
+def dlFolder : String := "downloads"
+
+/-- `restore_backup()` after its availability checks, as the file system sees it: [a leftover download is deleted]; the copy
+arrives in `downloads/database.db` (`FTPServiceABC._store_data`: `create_file` without force, then `file.health_status = …`;
+if a live file of that name is still there `create_file` raises inside `_store_data` and the stale file stays); then the
+replacement step `dbReplace`. With `dl = none` nothing arrives and the database file is not touched.
+(`dlClear`, `dlArrive`, then `dbReplace`.) -/
+def DNode.dlClear (d : DNode) (pre : Bool) : DNode :=
+  if pre then { d with n := d.n.mapLiveFolder dlFolder (fun G => G.mapLiveFile dbFile File.delete) } else d
+
+/-- the file `_store_data` creates: a fresh file (visible NONE) with the delivered health — written on THAT object only -/
+def arrivedFile (h : FsH) : File := { freshFile dbFile with actual := h }
+
+def DNode.dlArrive (d : DNode) (h : FsH) : DNode :=
+  if (d.n.liveFile? dlFolder dbFile).isSome then d
+  else
+    let d1 := match d.n.liveFolder? dlFolder with
+      | some _ => d
+      | none => d.createFolder dlFolder
+    { d1 with n := d1.n.addFile dlFolder (arrivedFile h) }
+
+def DNode.dbRestore (d : DNode) (pre : Bool) (dl : Option FsH) : DNode :=
+  match dl with
+  | none => d.dlClear pre
+  | some h => ((d.dlClear pre).dlArrive h).dbReplace dbFolder dbFile dlFolder
+
+/-- does the fix of the database service complete in the item tick that starts from `m` (state after power phase and node
+scan) — and is the service then able to act (`_can_perform_action`: RUNNING)? -/
+def Node.dbFixCompletes (m : Node) : Bool :=
+  m.sws.any (fun x => x.name = dbSvcName && x.actual = .fixing && x.op = .running &&
+    (match x.fixCd with | some c => decide (c - 1 ≤ 0) | none => false))
+
+/-- `Node.apply_timestep` with the database restore in its place: power phase, node scan, software ticks, [restore], folder
+ticks. -/
+def DNode.tickDb (d : DNode) (pre : Bool) (dl : Option FsH) : DNode :=
+  let m := d.n.powerPhase
+  if m.power = .on then
+    let m1 := m.scanPhase
+    let d2 : DNode := { d with n := m1.mapSws Sw.tick }
+    let d3 := if m1.dbFixCompletes then d2.dbRestore pre dl else d2
+    { d3 with n := d3.n.mapFolders (fun F => if F.deleted then F else F.tick) }
+  else { d with n := m }
 
 /-- `SoftwareManager.uninstall(name)`: the item of that name leaves `node.services` / `node.applications` -/
 def Node.uninstall (n : Node) (name : String) : Node := { n with sws := n.sws.eraseP (fun x => x.name = name) }
@@ -183,6 +254,9 @@ def DNode.apply (d : DNode) : DOp → DNode
     else d
   | .fsCopyFile srcF f dstF => d.copyFile srcF f dstF
   | .dbReplace F f srcF => d.dbReplace F f srcF
+  | .folderSet F h => { d with n := d.n.mapFolder F (fun G => { G with actual := h }) }
+  | .dbRestore pre dl => d.dbRestore pre dl
+  | .tickDb pre dl => d.tickDb pre dl
 
 def DNode.respond (d : DNode) : DOp → Resp
   | .base op => d.n.respond op
@@ -191,7 +265,8 @@ def DNode.respond (d : DNode) : DOp → Resp
     else if d.n.hasSw s.name then .success      -- "already installed"
     else Resp.ofBool known
   | .appUninstallReq name => if d.n.power ≠ .on then .failure else Resp.ofBool (d.n.hasSw name)
-  | .swInstallApi _ | .swUninstallApi _ | .fsCopyFile _ _ _ | .dbReplace _ _ _ => .ok
+  | .swInstallApi _ | .swUninstallApi _ | .fsCopyFile _ _ _ | .dbReplace _ _ _ | .folderSet _ _ | .dbRestore _ _
+  | .tickDb _ _ => .ok
   | .fsCreateFolder _ => Resp.ofBool (d.n.power = .on)
   | .fsCreateFile F f force =>
     if d.n.power ≠ .on then .failure else Resp.ofBool (force || !(d.n.liveFile? F f).isSome)
@@ -218,8 +293,20 @@ the code (first match)? -/
 def DNode.restoreAmbiguous (d : DNode) : DOp → Bool
   | .base (.fsRestoreFolder F) => d.n.folderTwins && d.n.folders.any (fun G => G.name = F)
   | .base (.fsRestoreFile F _) => d.n.folders.any (fun G => G.name = F && !G.deleted && G.twins)
-  | .base .tick => d.n.folders.any (fun G => !G.deleted && G.restoreCd = 1 && G.twins)
+  | .base .tick | .tickDb _ _ => d.n.folders.any (fun G => !G.deleted && G.restoreCd = 1 && G.twins)
   | .base (.file F f _) | .base (.fsDeleteFile F f) | .base (.folderDelete F f) | .dbReplace F f _ => d.n.liveTwins F f
+  | .dbRestore _ _ => d.n.liveTwins dbFolder dbFile || d.n.liveTwins dlFolder dbFile
   | _ => false
+
+/-! ### what the agent sees, by NAME
+
+`FileObservation` / `FolderObservation` / `ServiceObservation` read `describe_state()`, which lists the LIVE folders of a file
+system by name, the LIVE files of a folder by name, and the installed software by name. (Live names are unique after "fix:
+add_file(force=True) … second live file"; the rig compares these views with the real `describe_state()` after every operation.) -/
+
+/-- visible health shown for file `f` of folder `F`; `none` = not present in the state dictionary (the observation shows 0) -/
+def Node.seenFile (n : Node) (F f : String) : Option FsH := (n.liveFile? F f).map (·.visible)
+def Node.seenFolder (n : Node) (F : String) : Option FsH := (n.liveFolder? F).map (·.visible)
+def Node.seenSw (n : Node) (name : String) : Option SwH := (n.sws.find? (fun x => x.name = name)).map (·.visible)
 
 end Primaite.Health
